@@ -151,7 +151,7 @@ where
         )))
     }
 
-    /// Try to decrypt using the current exporter secret and if fails try with the past ones until a max lookback of [`DEFAULT_EPOCH_LOOKBACK`].
+    /// Try to decrypt using the current exporter secret and if fails try with the past ones until a max lookback of [`DEFAULT_EPOCH_LOOKBACK`] (more if the configured windows are wider).
     pub(super) fn try_decrypt_with_recent_epochs(
         &self,
         mls_group: &MlsGroup,
@@ -172,12 +172,14 @@ where
                     "Failed to decrypt message with current exporter secret. Trying with past ones."
                 );
 
-                // Try with past exporter secrets
-                self.try_decrypt_with_past_epochs(
-                    mls_group,
-                    encrypted_content,
-                    DEFAULT_EPOCH_LOOKBACK,
-                )
+                // Try with past exporter secrets. The outer layer has to be able to open
+                // whatever the inner windows are configured to accept: application messages up
+                // to `max_past_epochs` epochs old and competing commits up to
+                // `epoch_snapshot_retention` epochs old.
+                let lookback = DEFAULT_EPOCH_LOOKBACK
+                    .max(self.config.max_past_epochs as u64)
+                    .max(self.config.epoch_snapshot_retention as u64);
+                self.try_decrypt_with_past_epochs(mls_group, encrypted_content, lookback)
             }
         }
     }
